@@ -464,6 +464,19 @@ func init() {
 								continue
 							}
 							if err == nil {
+								// the two reference parsers of the package see the same identity in the same string
+								if pf.name == "reference.IdentityFromURL" {
+									li, lerr, lpi := c19TryLit(m)
+									if lpi == nil {
+										lid, isID := (*resource.Identity)(nil), false
+										if lerr == nil && li != nil {
+											lid, isID = li.Identity()
+										}
+										if lerr != nil || !isID || !lid.Equal(id) {
+											r.Fail("edit|reference.IdentityFromURL|disagrees-with-LiteralInfoFromURI", core.W{"input": m, "identity": id.String(), "literal_info": fmt.Sprint(c19Info(li), " ", lerr)})
+										}
+									}
+								}
 								// an accepted string formats to text that the same parser maps to an equal identity
 								back := id.PreferRelativeVersionedURIString()
 								if pf.name == "resource.NewIdentityFromURL" || pf.name == "reference.IdentityFromRelativeURI" || pf.name == "reference.IdentityFromURL" {
@@ -545,6 +558,73 @@ func init() {
 					pi := core.Try(func() { canonical.IdentityFromReference(nil) })
 					if pi != nil {
 						r.Fail("canonical|nil|"+pi.Key(), core.W{"input": "nil canonical"})
+					}
+				}},
+				{Name: "identity-derivation", N: 1, Note: "identities derived with WithNewVersion / Unversioned from an identity that was formatted before: every formatter and the typed reference of the derived identity equal those of an identity built afresh from the same components; the original is unchanged", Run: func(i int, r *core.Rec) {
+					fmtAll := func(id *resource.Identity) string {
+						if id == nil {
+							return "<nil>"
+						}
+						v, hv := id.VersionID()
+						rv, hrv := id.RelativeVersionedURIString()
+						parts := []string{string(id.Type()), id.ID(), v, fmt.Sprint(hv), id.RelativeURIString(), rv, fmt.Sprint(hrv), id.PreferRelativeVersionedURIString(), id.String()}
+						if u := id.RelativeURI(); u != nil {
+							parts = append(parts, u.GetValue())
+						}
+						if u, ok := id.RelativeVersionedURI(); ok && u != nil {
+							parts = append(parts, u.GetValue())
+						}
+						if u := id.PreferRelativeVersionedURI(); u != nil {
+							parts = append(parts, u.GetValue())
+						}
+						if ref := reference.TypedFromIdentity(id); ref != nil {
+							parts = append(parts, fmt.Sprint(ref))
+						}
+						return strings.Join(parts, " | ")
+					}
+					for _, t := range []string{"Patient", "Observation", "MedicinalProductUndesirableEffect"} {
+						for _, idv := range []string{"1", "obs-1", "A.b-9"} {
+							for _, v1 := range []string{"", "1", "v-2"} {
+								for _, v2 := range []string{"", "2", "1", "v.9"} {
+									for _, warm := range []bool{false, true} {
+										orig, err := resource.NewIdentity(t, idv, v1)
+										if err != nil {
+											continue
+										}
+										before := ""
+										if warm {
+											before = fmtAll(orig) // format first: whatever it memoises must not leak into derived identities
+										}
+										var derived *resource.Identity
+										if v2 == "" {
+											derived = orig.Unversioned()
+										} else {
+											derived = orig.WithNewVersion(v2)
+										}
+										fresh, _ := resource.NewIdentity(t, idv, v2)
+										r.Eval()
+										r.State(fmt.Sprintf("derive|warm=%v|v1=%v|v2=%v", warm, v1 != "", v2 != ""))
+										r.Nontrivial(t, idv, v1, v2, fmt.Sprint(warm))
+										w := core.W{"type": t, "id": idv, "version": v1, "new_version": v2, "formatted_before_deriving": warm}
+										if got, want := fmtAll(derived), fmtAll(fresh); got != want {
+											w["derived"], w["built_afresh"] = got, want
+											r.Fail(fmt.Sprintf("identity-derivation|derived-identity-differs-from-fresh|warm=%v", warm), w)
+										}
+										if !derived.Equal(fresh) || !fresh.Equal(derived) {
+											r.Fail("identity-derivation|derived-not-Equal-to-fresh", w)
+										}
+										if warm && fmtAll(orig) != before {
+											r.Fail("identity-derivation|original-changed-by-deriving", w)
+										}
+										// parse(format(derived)) has the derived components
+										if back, perr := reference.IdentityFromURL(derived.PreferRelativeVersionedURIString()); perr != nil || !back.Equal(fresh) {
+											w["reparsed"] = fmt.Sprint(back, perr)
+											r.Fail("identity-derivation|format-then-parse-differs", w)
+										}
+									}
+								}
+							}
+						}
 					}
 				}},
 				{Name: "is-equivalence", N: len(pool), Note: fmt.Sprintf("reference.Is over all %d^3 triples of the reference pool", len(pool)), Run: func(i int, r *core.Rec) {
